@@ -3,5 +3,5 @@
 seed=${1:-0}; tier=${2:-quick}
 for id in $(python3 -c "import json; print(' '.join(c['property_id'] for c in json.load(open('MANIFEST.json'))['checks']))"); do
   t0=$(date +%s); out=$(VERIF_SEED=$seed ./check $id --tier $tier 2>/dev/null); rc=$?; t1=$(date +%s)
-  echo "$id rc=$rc $((t1-t0))s known=$(echo "$out" | grep -c '^KNOWN-FINDING') viol=$(echo "$out" | grep -c '^VIOLATION') $(echo "$out" | grep '^VIOLATION' | head -1 | cut -c1-160)"
+  echo "$id rc=$rc $((t1-t0))s known=$(echo "$out" | grep -a -c '^KNOWN-FINDING') viol=$(echo "$out" | grep -a -c '^VIOLATION') $(echo "$out" | grep -a '^VIOLATION' | head -1 | cut -c1-160)"
 done
